@@ -53,6 +53,14 @@ var handShapes = []string{
 	`{ me { ... on Human { name } ... on Node { id } } pets { ... on Node { __typename } weight } }`,
 	// both helper fields reach one level, one through each fragment (fix: helpers carry their response key)
 	`{ me { ... on Human { name } ... on Node { uid: id } } }`,
+	// fragments on object types inside fragments on abstract types (fix 9f8e2bb; the first one formerly the listed
+	// finding C01-concrete-fragment-in-abstract-fragment), an id inside one fragment only (fix 82435c2)
+	`{ me { ... on Node { ... on Pet { weight } } phone } }`,
+	`{ me { ... on Node { ... on Human { phone } ... on Pet { weight } } name } }`,
+	`{ pets { ... on Node { ... on Node { __typename } } weight } }`,
+	`{ beings { ... on Node { ... on Pet { weight } id } } }`,
+	`{ beings { ... on Being { ... on Node { ... on Human { phone } } } } }`,
+	`{ beings { ... on Node { ... on Human { phone } } } }`,
 }
 
 func worldFor(seed int64, domain string) *gen.World {
@@ -69,7 +77,7 @@ func worldFor(seed int64, domain string) *gen.World {
 	if domain == "unions" {
 		opt.UnionBias = true
 	}
-	if domain == "ifaces" {
+	if domain == "ifaces" || domain == "ifaces_wild" {
 		opt.Interfaces = true
 	}
 	if domain == "ids" {
@@ -150,6 +158,11 @@ func driveC01(seed int64, tier, out, replay string) {
 				if i%5 == 4 {
 					dom = "ifaces" // an interface whose implementers' fields are spread over services
 				}
+				if i%5 == 3 {
+					// the same, with fragments on the type itself, on other abstract types, nested (since fixes
+					// 75235b9, 2e934d6, c65e28f, 9f8e2bb, 82435c2 these are answered like any other operation)
+					dom = "ifaces_wild"
+				}
 				cases = append(cases, fedCase{WorldSeed: ws, OpSeed: rng.Int63(), Cfg: cfgs[(i+j)%len(cfgs)], Domain: dom})
 			}
 		}
@@ -224,6 +237,9 @@ func driveC01(seed int64, tier, out, replay string) {
 		} else {
 			oo := opOptionsFor(c.Domain, r.World)
 			oo.TwinRoots = c.OpSeed%5 == 0
+			if c.Domain == "ifaces_wild" {
+				oo.Wild, oo.TwinRoots, oo.Directives, oo.NamedFrags = true, false, false, false
+			}
 			op = gen.Operation(hx.NewRand(c.OpSeed), r.Merged, oo)
 		}
 		c.SDLs = r.SDLs
